@@ -61,7 +61,10 @@ def abstract_session(b, rng, n=0):
         modi.append({"id": "2", "marks": s["m2"]["marks"]})
     if rng.random() < 0.5:
         orig.reverse()
-    return {"tab": s["tab"], "batch": s["batch"] + n, "rec": s["rec"], "masknum": str(100 + n), "group": s["group"],
+    # consecutive sessions: same tabulator and successive batches, or the same batch number under successive tabulators
+    same_batch = rng.random() < 0.5
+    return {"tab": s["tab"] + (n if same_batch else 0), "batch": s["batch"] + (0 if same_batch else n), "rec": s["rec"],
+            "masknum": str(100 + n), "group": s["group"],
             "layout": s["layout"], "keys": s["keys"], "orig": orig, "modi": modi if "Modified" in s["keys"] else []}
 
 
